@@ -85,9 +85,21 @@ DESC = {
  "S80": ("C18", "a per-block 'verified once' flag is claimed before the checksum is checked", "a corrupted block read a second time after the first read failed (retry, second query, compactor)"),
  "S81": ("C19", "merge-iterator sift-down never considers the last heap slot as a right child (same site as S57, written independently)", "an odd number (>= 3) of overlapping row-sets of a primary-key table"),
  "S82": ("C20", "COPY FROM skips records whose fields are all empty", "a row whose exported columns are all NULL (or a single NULL column)"),
+ "S83": ("C01", "new rule `limit-scan` drops a LIMIT above a table scan whenever the *estimated* row count fits the limit", "LIMIT directly above a scan (no ORDER BY, or ORDER BY eliminated) with estimate <= LIMIT < actual rows: mocked / stale statistics, or a key-range predicate on disk"),
+ "S84": ("C03", "manifest replay at open no longer carries DropTable entries into the compacted manifest it rewrites", "an acknowledged DROP TABLE followed by two reopen cycles (the table is back; with the name re-used the open fails)"),
+ "S85": ("C04", "same change as S84, written independently for C04", "DROP TABLE, a recovery, then a second recovery / open"),
+ "S86": ("C08", "the never-read `_pin_version` field of `SecondaryTransaction` is removed: the pin guard drops when `start()` returns", "a reader overlapping a compaction / DROP commit and a vacuum pass"),
+ "S87": ("C15", "COPY FROM reader errors travel through the channel; the reader thread is no longer joined, so a reader *panic* just closes the channel", "a CSV record that makes the reader thread panic (non-ASCII text in a BLOB field) after some chunks were already read"),
+ "S88": ("C02", "top-N skips an incoming row once the heap is full unless it is strictly smaller than the worst kept row on the *first* key only", "ORDER BY k1, k2 LIMIT n with ties on k1 at the cut-off, the better row arriving later"),
+ "S89": ("C07", "the handlers of one DELETE are split per row-set with `chunk_by` (consecutive runs) collected into a HashMap: only the last run of a row-set survives", "primary-key table, >= 2 row-sets with interleaving keys, one DELETE covering rows of both"),
+ "S90": ("C09", "`try_lock_for_compaction` locks a fresh, unregistered mutex when the table has no lock-map entry yet", "the first DELETE on a table since open, started while the compactor is inside that table's compaction"),
+ "S91": ("C10", "orphan row-sets / delete vectors are checked while the manifest is replayed instead of after it (same site as S18)", "an INSERT whose commit is between manifest append and publication when a DROP TABLE of the same table pins its snapshot; shutdown + reopen"),
  "S52": ("C10", "reverse of repair db497b9: the binder fetches the table by id with unwrap() after resolving its name", "DROP TABLE by another session between the binder's two catalog lookups (multi-thread runtime)"),
 }
 STRENGTHENED = {
+ "S76": "missed by the first C12 (key values were unique by construction); caught after a third of the keyed tables hold duplicate key values and ORDER BY lists the key first, then another column",
+ "S79": "missed by the first C16 / C14 (generated arithmetic was integer-typed, the DOUBLE x DECIMAL pair is not modelled by C14's scalar interpreter); caught after every fourth statement of leg A is built from columns of every numeric type (+ - * / %, CASE, CAST, aggregates)",
+ "S87": "needed the natural-fault leg of C15 (statements whose own operators fail on a poison row / a bad CSV record at row k; the hook-injected faults sit in the operators' output loops and cannot reach a helper thread)",
  "S53": "missed by the first C02 / C01 (extra conjuncts of EXISTS subqueries referred to the inner table only); caught after EXISTS / NOT EXISTS conditions may carry conjuncts over the outer row only or over both",
  "S59": "missed by the first C16 (its INSERT leg declared no primary keys at all); caught after tables get column-option and table-constraint (also composite) primary keys",
  "S60": "needed the `join_mixed_key` shape (whole ON condition = one equality with a side mixing both inputs) in the generator",
